@@ -23,7 +23,9 @@ def cases(draw, max_steps=14):
         r["mult"] = 1
     scn["forcing"]["vel"]["kind"] = draw(st.sampled_from(["shear", "shear", "noise"]))
     scn["grid"]["h"] = draw(st.sampled_from(["noise", "slope"]))
-    if draw(st.integers(0, 2)) == 0:
+    # flavours: 0, 1 generic; 2 coastal; 3 stage_cross; 4 units_shift; 5 border; 6 empty_gap
+    flav = draw(st.integers(0, 6))
+    if flav == 2:
         # coastal flavour: everybody is released next to land in a flow that pushes towards it, some particles
         # are switched off or die early and stay in the state (dense layout, or output period > 1)
         scn["grid"]["mask"] = draw(st.sampled_from(["shore", "shore", "islands"]))
@@ -44,8 +46,7 @@ def cases(draw, max_steps=14):
             scn["ibm"]["deactivate"].append([draw(st.integers(0, max(0, nst - 1))), draw(st.sampled_from(tags))])
         scn["output"]["period"] = draw(st.sampled_from([1, 2, 3]))
         scn["coastal"] = True
-    flavour = draw(st.integers(0, 3))
-    if flavour == 0 and not scn.get("coastal"):
+    if flav == 3:
         # deaths seen by a sparse record in a run whose Runge-Kutta stages leave the start cell: fast sheared
         # flow over an uneven bottom, a record every step
         scn["tracker"]["advection"] = draw(st.sampled_from(["RK2", "RK4"]))
@@ -55,12 +56,76 @@ def cases(draw, max_steps=14):
         scn["forcing"]["vel"].update(kind="shear", amp=0.5, u=draw(st.sampled_from([0.6, -0.6, 0.3])),
                                      v=draw(st.sampled_from([0.5, -0.4])))
         scn["stage_cross"] = True
+        scn["time"]["nsteps"] = max(scn["time"]["nsteps"], 7)
+        need = scn["time"]["pre"] + scn["time"]["nsteps"] + 1
+        while sum(scn["forcing"]["gaps"]) < need:
+            scn["forcing"]["gaps"].append(draw(st.integers(1, 4)))
+        scn["forcing"]["partition"] = [len(scn["forcing"]["gaps"]) + 1]
+        rows = scn["release"]["rows"]
+        for _ in range(draw(st.integers(4, 8))):  # a crowd at the start, at all depths
+            rows.append(dict(step=min(r["step"] for r in rows), cell=draw(st.integers(0, 10**6)),
+                             fx=draw(st.floats(-0.45, 0.45)), fy=draw(st.floats(-0.45, 0.45)),
+                             zf=draw(st.floats(0.0, 1.0)), mult=1, tag=len(rows)))
+        rows.sort(key=lambda r: (r["step"], r["tag"]))
+    if flav == 4:
+        # forcing time axis in days / hours since another epoch (float64 values that are not exact) and the whole
+        # set-up shifted by whole steps
+        scn["forcing"]["tunits"] = draw(st.sampled_from(["days", "days", "hours"]))
+        scn["units_shift"] = True
+    if flav == 5:
+        # a particle that is switched off early, and another one released later right at the eastern edge in an
+        # eastward flow, which leaves the grid in the step of its release; the variant run does without it
+        scn["grid"]["mask"] = "none"
+        scn["forcing"]["vel"].update(kind="shear", amp=0.05, u=0.45, v=0.0)
+        nst = scn["time"]["nsteps"] = max(scn["time"]["nsteps"], 6)
+        need = scn["time"]["pre"] + nst + 1
+        while sum(scn["forcing"]["gaps"]) < need:
+            scn["forcing"]["gaps"].append(draw(st.integers(1, 4)))
+        scn["forcing"]["partition"] = [len(scn["forcing"]["gaps"]) + 1]
+        rows = scn["release"]["rows"]
+        first = min(r["step"] for r in rows)
+        for r in rows:
+            r["fx"] = -0.4  # the others start at the western side of their cell
+        leaver = dict(rows[0], step=min(first + draw(st.integers(2, 3)), nst - 1), edge="east", fx=0.4, tag=len(rows))
+        rows.append(leaver)
+        rows.sort(key=lambda r: (r["step"], r["tag"]))
+        scn["ibm"]["deactivate"] = [[first, rows[0]["tag"]]]
+        scn["ibm"]["kills"] = []
+        scn["ibm"]["lifetime"] = 0
+        scn["border"] = leaver["tag"]
+    if flav == 6:
+        # one early particle and the rest released a few steps later; without the early one the model runs with
+        # an empty state until then (forcing varying in time)
+        nst = scn["time"]["nsteps"] = max(scn["time"]["nsteps"], 6)
+        need = scn["time"]["pre"] + nst + 1
+        while sum(scn["forcing"]["gaps"]) < need:
+            scn["forcing"]["gaps"].append(draw(st.integers(1, 3)))
+        scn["forcing"]["partition"] = [len(scn["forcing"]["gaps"]) + 1]
+        rows = scn["release"]["rows"]
+        first = min(r["step"] for r in rows)
+        gap = draw(st.integers(2, 4))
+        for k, r in enumerate(sorted(rows, key=lambda r: r["tag"])):
+            r["step"] = first if k == 0 else min(max(r["step"], first + gap), nst - 1)
+        rows.sort(key=lambda r: (r["step"], r["tag"]))
+        if len(rows) == 1:
+            rows.append(dict(rows[0], step=min(first + gap, nst - 1), tag=1, fx=-rows[0]["fx"]))
+        scn["ibm"]["kills"] = []
+        scn["ibm"]["lifetime"] = 0
+        scn["empty_gap"] = min(r["tag"] for r in rows)
     ntag = len(scn["release"]["rows"])
     variant = draw(st.sampled_from(["drop", "add", "permute", "kill_others", "shift", "repeat", "kill_others", "drop"]))
     if scn.get("stage_cross"):
         variant = draw(st.sampled_from(["kill_others", "kill_others", "drop"]))
+    if scn.get("units_shift"):
+        variant = "shift"
+    if "border" in scn or "empty_gap" in scn:
+        variant = "drop"
     v = dict(kind=variant)
-    if variant == "drop":
+    if variant == "drop" and "border" in scn:
+        v["keep"] = [r["tag"] != scn["border"] for r in scn["release"]["rows"]]
+    elif variant == "drop" and "empty_gap" in scn:
+        v["keep"] = [r["tag"] != scn["empty_gap"] for r in scn["release"]["rows"]]
+    elif variant == "drop":
         v["keep"] = draw(st.lists(st.booleans(), min_size=ntag, max_size=ntag))
     elif variant == "add":
         v["rows"] = [dict(step=draw(st.integers(0, max(0, scn["time"]["nsteps"] - 1))), cell=draw(st.integers(0, 10**6)),
@@ -68,6 +133,11 @@ def cases(draw, max_steps=14):
                           mult=1, tag=1000 + k) for k in range(draw(st.integers(1, 4)))]
     elif variant == "permute":
         v["seed"] = draw(st.integers(0, 10**6))
+    elif variant == "kill_others" and scn.get("stage_cross"):
+        # a few of the first particles die one after the other early in the run: several death-then-record events
+        v["victims"] = list(range(draw(st.integers(1, 3))))
+        first = min(r["step"] for r in scn["release"]["rows"])
+        v["when"] = [first + 1 + 2 * k for k in range(len(v["victims"]))]
     elif variant == "kill_others":
         v["victims"] = draw(st.lists(st.integers(0, ntag - 1), min_size=1, max_size=max(1, ntag - 1), unique=True))
         v["when"] = [draw(st.integers(0, max(0, scn["time"]["nsteps"] - 1))) for _ in v["victims"]]
@@ -85,10 +155,8 @@ def make_variant(scn):
     rows = s2["release"]["rows"]
     if v["kind"] == "drop":
         keep = [r for r, k in zip(rows, v["keep"]) if k]
-        s_first = min(r["step"] for r in rows)
-        if not any(r["step"] == s_first for r in keep) or not keep:
-            first = [r for r in rows if r["step"] == s_first][:1]
-            keep = first + [r for r in keep if r not in first]
+        if not keep:  # at least one row must remain; it need not be one of the first step
+            keep = rows[-1:]
         keep.sort(key=lambda r: (r["step"], r["tag"]))
         s2["release"]["rows"] = keep
     elif v["kind"] == "add":
@@ -143,6 +211,12 @@ def oracle(scn) -> core.CaseResult:
         res.cls("coastal")
     if scn.get("stage_cross"):
         res.cls("stage_cross")
+    if scn.get("units_shift"):
+        res.cls("units_shift")
+    if "border" in scn:
+        res.cls("border")
+    if "empty_gap" in scn:
+        res.cls("empty_gap")
     s2, shift, compare = make_variant(scn)
     with e2e.workdir() as d1, e2e.workdir() as d2:
         r1, m1 = sim.run(d1, scn, record_output=False)
@@ -207,7 +281,7 @@ def shard(n, seed, known, max_steps):
 
 def run(ctx):
     jobs = [(k, core.subseed(ctx.seed, "p", i), ctx.known_sigs, ctx.n(14, 40))
-            for i, k in enumerate(core.split(ctx.n(800, 16000), 16))]
+            for i, k in enumerate(core.split(ctx.n(1120, 16000), 16))]
     stats = core.Stats()
     for s in core.pmap(shard, jobs):
         stats.merge(s)
